@@ -50,6 +50,7 @@ struct H {
     std::string name;         // the name given on the mk line
     bool bound = false;
     bool alive = false;
+    bool linked = false;      // some link may have pointed to it at some time (see mark_linked)
     std::string id;
     nix::Block b; nix::Section s; nix::Property p; nix::DataArray a; nix::DataFrame d;
     nix::Tag t; nix::MultiTag m; nix::Group g; nix::Source r; nix::Feature x;
@@ -141,8 +142,16 @@ static int arg(int k, char kind) {
     if (!hs[k].alive) {
         int p = hs[k].parent;
         if (p >= 0 && !is_live(p)) refuse("driver::orphan");
+        // a deleted entity that a DELETED holder (or the entity itself) still links to keeps a positive HDF5 link
+        // count: isValidEntity() stays true.  The model does not follow such links, so these handles are not used.
+        if (hs[k].linked) refuse("driver::zombie");
     }
     return k;
+}
+// after a successful call that creates links: every entity the arguments may have named counts as linked
+static void mark_linked_ref(int k) { if (k >= 0 && k < (int)hs.size()) hs[k].linked = true; }
+static void mark_linked_str(const std::string &s) {
+    for (auto &h : hs) if (h.bound && (h.id == s || h.name == s)) h.linked = true;
 }
 static nix::DataArray argA(int k) { int i = arg(k, 'A'); return i < 0 ? nix::DataArray() : hs[i].a; }
 static nix::DataFrame argD(int k) { int i = arg(k, 'D'); return i < 0 ? nix::DataFrame() : hs[i].d; }
@@ -829,6 +838,12 @@ static std::string answer(const std::vector<std::string> &t) {
     bool maybe_deleted = false;
     try {
         head = "OK " + do_line(t, maybe_deleted);
+        // bookkeeping of possible link targets (see arg())
+        if (c == "ladd" || c == "setmeta" || c == "setlink" || c == "setpos" || c == "setext" || c == "setdata") mark_linked_ref(dec_ref(t.at(c == "ladd" ? 3 : 2)));
+        else if (c == "ladds" || c == "setmetas" || c == "setlinks" || c == "setposs" || c == "setexts" || c == "setdatas") mark_linked_str(dec_sarg(t.at(c == "ladds" ? 3 : 2)));
+        else if (c == "lset") { size_t n = (size_t)dec_u64(t.at(3)); for (size_t i = 0; i < n; i++) mark_linked_ref(dec_ref(t.at(4 + i))); }
+        else if (c == "mk" && t.at(2) == "M") mark_linked_ref(dec_ref(t.at(5)));
+        else if (c == "mk" && t.at(2) == "X") { if (t.at(5) == "h") mark_linked_ref(dec_ref(t.at(6))); else mark_linked_str(dec_sarg(t.at(6))); }
     } catch (const std::domain_error &e) {
         head = std::string("ERR ") + e.what();
     } catch (const std::logic_error &e) {
